@@ -750,11 +750,20 @@ func TestC11(t *testing.T) {
 		"decides a default; accessors, initable variables and init keywords are the union over the precedence), compared with the vt:mark trace, the value, " +
 		"class-precedence and the instance variables read through the Go API. Non-trivial: some method is defined when at least two already defined flavors " +
 		"inherit from its flavor. Distinct by (DAG, options, methods, order, flags). Enumerations (orders-*): every DAG of the family x every set of k methods " +
-		"on :m x every legal order, observed after every form.")
+		"on :m x every legal order, observed after every form. " +
+		"Sub-properties accessor-vs-method(-grid): the getter :u / setter :set-u a flavor gets from its options are primaries of that flavor; flavors may also define a primary of " +
+		"that name by hand; the first primary in precedence order (hand-written replaces the flavor's own accessor; a bare option on a flavor that only inherits u is left open) " +
+		"must run after every form of every legal order; the grid has base/top with every option combination on both, one hand-written method, both orders.")
 	h.Assume("vt:mark (harness primitive) records the daemon that runs; Instance.SlotValue reads an instance variable")
 	h.Assume("undefflavor / Package.Remove are used only to discard the flavors of a finished case (names are never reused)")
 
 	h.RunProp(t, history, h.N(20000, 60000))
+	// accessors against hand-written primaries of the same name (:u, :set-u)
+	h.RunProp(t, accGrid, 0)
+	h.RunProp(t, accProp, h.N(4000, 20000))
+	if h.C.Shard == 0 {
+		h.Enumerate(t, accGrid, enumerateAcc)
+	}
 	if os.Getenv("C11_NOENUM") != "" { // development aid
 		return
 	}
